@@ -95,6 +95,8 @@ def p1_build(size, perm):
         "src/a.js": 'foo(x, 1, "s")\nlet y = 22\n',
         "tests/p1-num-test.yml": test_doc("p1-num", ["foo(x)", "x"], ["foo(1)", "let y = 22", "bar(x, 3)"]),
         "tests/p1-arg-test.yml": test_doc("p1-arg", ["foo()", "let z = 1"], ["foo(q)", "foo(7)", "g(a, 2)"]),
+        # a left-over snapshot whose id no test file declares anymore: legal, skipped by --update-all
+        "tests/__snapshots__/gone-snapshot.yml": "id: gone\nsnapshots: {}\n",
     }
 
 
@@ -292,6 +294,8 @@ def p6_build(size, perm):
     files["src/two.js"] = "foo(foo(x))\nbar(x, 2)\n"
     files["tests/p6-a-test.yml"] = test_doc("p6-a", ["bar(1)"], ["foo(x)", "foo(1)", "foo(foo(x))"])
     files["tests/p6-c-test.yml"] = test_doc("p6-c", ["x"], ["1", '"s"', "f(2)"])
+    files["tests/__snapshots__/gone-snapshot.yml"] = "id: gone\nsnapshots: {}\n"
+    files["tests/__snapshots__/gone2-snapshot.yml"] = "id: gone2\nsnapshots: {}\n"
     return files
 
 
